@@ -44,6 +44,15 @@ def shapes():
         "overload": lambda o2: [dict({"decl": "void ftwo(int a)"}, **o2), {"decl": "void ftwo(double b)"},
                                 {"decl": "int fone(int a)"}],
         "string": lambda o2: [{"decl": "void fone(const std::string & s)"}, dict({"decl": "void ftwo(double b)"}, **o2)],
+        # the override sits deep inside: a wrapper switched on only there still has to be written
+        "ns-inner": lambda o2: [{"decl": "namespace outer", "declarations": [{"decl": "int fone(int a)"},
+                                                                             dict({"decl": "void ftwo(double b)"}, **o2)]}],
+        "ns-nested": lambda o2: [{"decl": "namespace outer", "declarations": [
+                                     {"decl": "int fone(int a)"},
+                                     {"decl": "namespace deep", "declarations": [dict({"decl": "void ftwo(double b)"}, **o2)]}]}],
+        "ns-block": lambda o2: [{"decl": "namespace outer", "declarations": [
+                                    {"decl": "int fone(int a)"},
+                                    {"block": True, "declarations": [dict({"decl": "void ftwo(double b)"}, **o2)]}]}],
         # generated variants of the overridden declaration must keep its flags: a method returning *this
         # (return_this makes a clone returning void), a template instantiation, a fortran_generic entry
         "return_this": lambda o2: [{"decl": "class Cone", "declarations": [
